@@ -876,7 +876,12 @@ func (vfs *MemFS) removeAll(parent *dirNode) error {
 	parent.mu.Lock()
 	defer parent.mu.Unlock()
 
-	if ok := parent.checkPermission(avfs.OpenWrite, vfs.User()); !ok {
+	if len(parent.children) == 0 {
+		return nil
+	}
+
+	// the directory is read to find its entries, which are then looked up and removed from it.
+	if ok := parent.checkPermission(avfs.OpenRead|avfs.OpenWrite|avfs.OpenLookup, vfs.User()); !ok {
 		return vfs.err.PermDenied
 	}
 
